@@ -116,33 +116,6 @@ theorem mem_coll_iff {k : Kernel} (hi : GInv k) (hb : k.fullBU = true) {h : Nat}
 
 /-! ### an oriented edge of a tetrahedron is a halfedge of exactly one of its halffaces -/
 
-/-- `b` follows `a` cyclically in the three-cycle `l` -/
-def Consec (l : List Nat) (a b : Nat) : Prop :=
-  match l with
-  | [x, y, z] => (a = x ∧ b = y) ∨ (a = y ∧ b = z) ∨ (a = z ∧ b = x)
-  | _ => False
-
-theorem tris_consec (p q r s : Nat) {a b : Nat} (ha : a ∈ [p, q, r, s]) (hb : b ∈ [p, q, r, s]) (hab : a ≠ b) :
-    ∃ t ∈ tris p q r s, Consec t a b := by
-  simp only [List.mem_cons, List.not_mem_nil, or_false] at ha hb
-  have m0 : [p, q, r] ∈ tris p q r s := by simp [tris]
-  have m1 : [q, p, s] ∈ tris p q r s := by simp [tris]
-  have m2 : [r, q, s] ∈ tris p q r s := by simp [tris]
-  have m3 : [p, r, s] ∈ tris p q r s := by simp [tris]
-  rcases ha with ha | ha | ha | ha <;> rcases hb with hb | hb | hb | hb <;>
-    first
-    | exact absurd (ha.trans hb.symm) hab
-    | (refine ⟨_, m0, ?_⟩; simp [Consec, ha, hb]; done)
-    | (refine ⟨_, m1, ?_⟩; simp [Consec, ha, hb]; done)
-    | (refine ⟨_, m2, ?_⟩; simp [Consec, ha, hb]; done)
-    | (refine ⟨_, m3, ?_⟩; simp [Consec, ha, hb]; done)
-
-theorem rot_consec {x t : List Nat} {a b : Nat} (hr : Rot x t) (ht : t.length = 3) (h : Consec t a b) : Consec x a b := by
-  match t, ht with
-  | [u, v, w], _ =>
-    rcases (rot_three x u v w).mp hr with rfl | rfl | rfl <;> simp only [Consec] at h ⊢ <;>
-      rcases h with h | h | h <;> simp [h]
-
 theorem loop_consec {k : Kernel} {l : List Nat} {a b : Nat} (hl : Loop3 k l) (h : Consec (l.map k.fromV) a b) :
     ∃ y ∈ l, k.fromV y = a ∧ k.toV y = b := by
   unfold Loop3 at hl
@@ -168,19 +141,6 @@ theorem tetOn_pair_halfedge {k : Kernel} {hs : List Nat} {p q r s a b : Nat} (hT
   exact ⟨hf, hm, y, hy, h1, h2⟩
 
 /-! ### no two live edges on the same two vertices -/
-
-theorem nodup_map_inj {α β} (f : α → β) : ∀ (l : List α), (l.map f).Nodup → ∀ x ∈ l, ∀ y ∈ l, f x = f y → x = y := by
-  intro l
-  induction l with
-  | nil => intro _ x hx; cases hx
-  | cons a t ih =>
-    intro hn x hx y hy e
-    simp only [List.map_cons, List.nodup_cons, List.mem_map, not_exists, not_and] at hn
-    rcases List.mem_cons.mp hx with rfl | hx' <;> rcases List.mem_cons.mp hy with rfl | hy'
-    · rfl
-    · exact absurd e.symm (hn.1 y hy')
-    · exact absurd e (hn.1 x hx')
-    · exact ih hn.2 x hx' y hy' e
 
 theorem toSet_pair_comm (u v : Nat) : toSet [u, v] = toSet [v, u] := by
   unfold toSet
@@ -413,7 +373,7 @@ theorem collapse_state {k : Kernel} {h : Nat} (P : CPre k h) :
   have hl2 : FaceLoops (k1.deleteVertex (k.fromV h)) := faceLoops_of_eq f3 f2 b1.loops
   have hnHF2 : (k1.deleteVertex (k.fromV h)).nHF = k1.nHF := by unfold nHF; rw [f2]
   have hrem : ∀ n ∈ rem, n.2.length = 4 ∧ (∀ hf ∈ n.2, hf < (k1.deleteVertex (k.fromV h)).nHF) ∧
-      (k1.deleteVertex (k.fromV h)).spanVertCount n.2 = 4 := by
+      (k1.deleteVertex (k.fromV h)).spanVertCount n.2 = 4 ∧ (k1.deleteVertex (k.fromV h)).noParallel n.2 = true := by
     intro n hn
     have hreb : n.1 ∈ rebuilt k h := by
       have : n.1 ∈ rem.map (·.1) := List.mem_map.mpr ⟨n, hn, rfl⟩
@@ -422,8 +382,9 @@ theorem collapse_state {k : Kernel} {h : Nat} (P : CPre k h) :
     obtain ⟨p, q, r, s, hT1⟩ := remOK_tetOn (P.isTet hl) (q6 n hn) (fun hx => hb hx.2)
     obtain ⟨c0, c1, c2, c3, n0, n1, n2, n3, _, e, ok, _⟩ := q6 n hn
     refine ⟨by rw [e]; rfl, fun hf hm => by rw [hnHF2]; exact (ok hf hm).1, ?_⟩
-    rw [spanVertCount_of_eq f3 f2]
-    exact spanVertCount_of_tetOn hT1 (loops_of_hfOk b1.loops (fun hf hm => (ok hf hm).1))
+    rw [spanVertCount_of_eq f3 f2, noParallel_of_eq f3 f2]
+    exact ⟨spanVertCount_of_tetOn hT1 (loops_of_hfOk b1.loops (fun hf hm => (ok hf hm).1)),
+      noParallel_of_tetOn hT1 (loops_of_hfOk b1.loops (fun hf hm => (ok hf hm).1))⟩
   obtain ⟨g1, g2, g3, g4, g5⟩ := readdFold_frames rem (k1.deleteVertex (k.fromV h)) hl2 hrem
   unfold collapseFinish
   simp only
